@@ -15,7 +15,8 @@ func init() {
 		ID:    "C01",
 		Level: "exploration",
 		Rule: "all 169 (source element type, destination element type) pairs over the built-in types plus 7 pairs over named element types x {Write, Read, WriteStriped, ReadStriped, write-then-read round trips across the interleaved and striped forms} x window shapes (channel counts 1..8,13,64; parent 0..40 frames; window at start/interior/end/empty, with and without spare capacity; non-frame-aligned lengths for the interleaved forms) x input lengths {0,1,n-1,n,n+1,2n+3} / per-channel slices {nil, empty, uneven, over-long}; values are boundary-dense + seeded integers exactly representable in both types (fractions and +-Inf for float<->float); " +
-			"each call runs against a canary arena re-read over the whole parent capacity through the hook, with sentinel-filled caller slices; distinct = distinct (function, pair, shape, input lengths) tuples; non-trivial = at least one sample is transferred",
+			"each call runs against a canary arena re-read over the whole parent capacity through the hook, with sentinel-filled caller slices; distinct = distinct (function, pair, shape, input lengths) tuples; non-trivial = at least one sample is transferred; " +
+			"also: striped writes whose rows are prefixes of one backing array, 65..257 channels, integers beyond 2^63 common to 64-bit unsigned and float types, the sign of zero between float types",
 		Assume: []string{"striped forms only on frame-aligned buffers (as the property states)", "positions computed by the oracle as C*i+c, counts as integer ceil(n/C)"},
 		Plan:   func(tier string) []Batch { return append(split("pairs", 13, 1200), digestBatches()...) },
 		Run:    runC01,
